@@ -12,7 +12,8 @@
 EXTENDS Integers, Sequences, FiniteSets, TLC, Json
 CONSTANTS N,            \* maximal number of PropertiesChanged signals
           PartialUpTo,  \* histories with at most this many signals are also run with a partial snapshot
-          Schedules
+          Schedules,
+          LazySchedules \* the schedules also replayed with CacheProperties::Lazily
 
 VARIABLES h, r          \* history (events), position of the reply (0 = not yet)
 
@@ -58,7 +59,7 @@ Weave(i, noq) ==
 
 EmitCase ==
   IF Valid
-  THEN \A md \in {"yes", "lazy"} : \A s \in {x \in Schedules : Applicable(x)} :
+  THEN \A md \in {"yes", "lazy"} : \A s \in {x \in Schedules : Applicable(x) /\ (md = "yes" \/ x \in LazySchedules)} :
          PrintT(<<"CASE", ToJson([mode |-> md, sched |-> s, ev |-> Weave(1, NoQAfter(s))])>>)
   ELSE TRUE
 =============================================================================
